@@ -867,6 +867,12 @@ impl<'p> Interp<'p> {
 		if sat && self.stop_on_sat {
 			return Err(Ctl::Stop("counterexample found".into()));
 		}
+		if sat && self.sat_count >= 60 {
+			// more counterexamples than are ever reported or replayed: stop exploring (the run counts as complete
+			// for the purpose of reporting; a long symbolic stream on changed code otherwise spends its whole
+			// budget collecting further witnesses)
+			return Err(Ctl::Stop("counterexample cap".into()));
+		}
 		Ok(())
 	}
 
